@@ -1,13 +1,355 @@
-// Package c20 is the harness for property C20 (runs the real kapacitor code, prints op lines).
+// Package c20 is the harness for property C20 (authorisation). It runs the REAL code:
+//
+//   - auth.NewUser / auth.User.AuthorizeAction / auth.APIResource / auth.DatabaseResource,
+//   - Go's path.Clean / path.Dir (the standard-library functions the model transcribes),
+//   - httpd.Handler (NewHandler + AddRoutes + ServeHTTP through httptest) with a fake auth.Interface, a
+//     recording route handler and a recording PointsWriter,
+//
+// and prints op lines `op … => observed`. Line formats (every string token is kit.Esc-aped):
+//
+//	user <name> <password> <admin 0|1> <grants>      account known to the fake auth service
+//	sub  <token> <admin 0|1> <grants>                subscription token known to the fake auth service
+//	     grants = "-" | res=p+p,res=p…               (privileges as decimal numbers, "res=" = empty list)
+//	az   <name> <resource>             => 5 letters  AuthorizeAction for privileges 1,2,4,8,16: A allow, D deny,
+//	                                                 I invalid resource, P panic
+//	azp  <name> <resource> <privilege> => 1 letter   one arbitrary privilege value
+//	clean <p> => <path.Clean(p)>        dir <p> => <path.Dir(p)>
+//	api  <p> => <auth.APIResource(p)>   dbres <db> => <auth.DatabaseResource(db)>
+//	dbpair <a> <b> => <DatabaseResource(a)> <DatabaseResource(b)>
+//	http <requireAuth 0|1> <method> <url path> <cred> <db> => <status> <served 0|1> <wrote 0|1>
+//	     cred = kind,f1,f2,f3,qu,qp   kind absent|other|basic|bearer; basic: f1 user f2 password;
+//	     bearer: f1 signature ok 0|1, f2 exp ("n" absent, 0 = literal zero, else seconds from now),
+//	     f3 username claim ("!none" absent); qu,qp = URL parameters u and p.
 package c20
 
 import (
+	"errors"
+	"expvar"
 	"fmt"
+	"net/http"
+	"net/http/httptest"
+	"net/url"
 	"os"
+	"path"
+	"strconv"
+	"strings"
+	"time"
+
+	"github.com/golang-jwt/jwt/v4"
+	"github.com/influxdata/influxdb/models"
+	"github.com/influxdata/kapacitor/auth"
+	"github.com/influxdata/kapacitor/services/httpd"
+
+	"verifharness/kit"
 )
 
-// Run is replaced by the property's harness.
+const secret = "verif-shared-secret"
+
+type account struct {
+	name, pw string
+	admin    bool
+	grants   map[string][]auth.Privilege
+}
+
+func (a account) user() auth.User { return auth.NewUser(a.name, []byte(a.pw), a.admin, a.grants) }
+
+// fakeAuth implements auth.Interface over the accounts of the case.
+type fakeAuth struct {
+	users map[string]account
+	subs  map[string]account
+}
+
+func (f *fakeAuth) Authenticate(username, password string) (auth.User, error) {
+	a, ok := f.users[username]
+	if !ok || a.pw != password {
+		return auth.User{}, errors.New("authentication failed")
+	}
+	return a.user(), nil
+}
+func (f *fakeAuth) User(username string) (auth.User, error) {
+	a, ok := f.users[username]
+	if !ok {
+		return auth.User{}, errors.New("unknown user")
+	}
+	return a.user(), nil
+}
+func (f *fakeAuth) SubscriptionUser(token string) (auth.User, error) {
+	a, ok := f.subs[token]
+	if !ok {
+		return auth.User{}, errors.New("unknown token")
+	}
+	return a.user(), nil
+}
+func (f *fakeAuth) GrantSubscriptionAccess(token, db, rp string) error { return nil }
+func (f *fakeAuth) ListSubscriptionTokens() ([]string, error)          { return nil, nil }
+func (f *fakeAuth) RevokeSubscriptionAccess(token string) error        { return nil }
+
+type pointsWriter struct{ calls int }
+
+func (p *pointsWriter) WritePoints(database, retentionPolicy string, consistencyLevel models.ConsistencyLevel, points []models.Point) error {
+	p.calls++
+	return nil
+}
+
+type server struct {
+	h      *httpd.Handler
+	pw     *pointsWriter
+	served int
+	stats  *expvar.Map
+}
+
+var methods = []string{"GET", "POST", "PATCH", "PUT", "DELETE", "HEAD", "OPTIONS"}
+
+func newServer(requireAuth bool, fa *fakeAuth) *server {
+	s := &server{pw: &pointsWriter{}, stats: new(expvar.Map).Init()}
+	s.h = httpd.NewHandler(requireAuth, false, false, false, false, s.stats, kit.Diag().NewHTTPDHandler(), secret)
+	s.h.AuthService = fa
+	s.h.PointsWriter = s.pw
+	rec := func(w http.ResponseWriter, r *http.Request) { s.served++; w.WriteHeader(http.StatusOK) }
+	var routes []httpd.Route
+	for _, m := range methods {
+		routes = append(routes, httpd.Route{Method: m, Pattern: "/tasks", HandlerFunc: rec})
+		routes = append(routes, httpd.Route{Method: m, Pattern: "/tasks/", HandlerFunc: rec})
+	}
+	if err := s.h.AddRoutes(routes); err != nil {
+		panic(err)
+	}
+	return s
+}
+
+func statInt(m *expvar.Map, key string) int64 {
+	if v, ok := m.Get(key).(*expvar.Int); ok && v != nil {
+		return v.Value()
+	}
+	return 0
+}
+
+func parseGrants(tok string) map[string][]auth.Privilege {
+	if tok == "-" {
+		return nil
+	}
+	g := map[string][]auth.Privilege{}
+	for _, e := range strings.Split(tok, ",") {
+		i := strings.Index(e, "=")
+		if i < 0 {
+			continue
+		}
+		res, _ := kit.Unesc(e[:i])
+		ps := []auth.Privilege{}
+		if e[i+1:] != "" {
+			for _, p := range strings.Split(e[i+1:], "+") {
+				v, _ := strconv.ParseUint(p, 10, 32)
+				ps = append(ps, auth.Privilege(v))
+			}
+		}
+		g[res] = ps
+	}
+	return g
+}
+
+func decide(u auth.User, resource string, p auth.Privilege) (c byte) {
+	defer func() {
+		if r := recover(); r != nil {
+			c = 'P'
+		}
+	}()
+	err := u.AuthorizeAction(auth.Action{Resource: resource, Privilege: p})
+	if err == nil {
+		return 'A'
+	}
+	if strings.HasPrefix(err.Error(), "invalid action resource") {
+		return 'I'
+	}
+	return 'D'
+}
+
+func un(s string) string { v, _ := kit.Unesc(s); return v }
+
+func doHTTP(s *server, method, urlPath, cred, db string) (obs string) {
+	defer func() {
+		if r := recover(); r != nil {
+			obs = "panic"
+		}
+	}()
+	f := strings.Split(cred, ",")
+	for len(f) < 6 {
+		f = append(f, "%")
+	}
+	q := url.Values{}
+	if db != "" {
+		q.Set("db", db)
+	}
+	if u := un(f[4]); u != "" {
+		q.Set("u", u)
+	}
+	if p := un(f[5]); p != "" {
+		q.Set("p", p)
+	}
+	req := httptest.NewRequest("GET", "http://localhost/", strings.NewReader("m v=1 1\n"))
+	req.Method = method
+	req.URL.Path = urlPath
+	req.URL.RawPath = ""
+	req.URL.RawQuery = q.Encode()
+	switch f[0] {
+	case "basic":
+		req.SetBasicAuth(un(f[1]), un(f[2]))
+	case "other":
+		req.Header.Set("Authorization", "Digest abc")
+	case "bearer":
+		claims := jwt.MapClaims{}
+		switch f[2] {
+		case "n":
+		case "0":
+			claims["exp"] = 0
+		default:
+			e, _ := strconv.ParseInt(f[2], 10, 64)
+			claims["exp"] = time.Now().Add(time.Duration(e) * time.Second).Unix()
+		}
+		if f[3] != "!none" {
+			claims["username"] = un(f[3])
+		}
+		key := secret
+		if f[1] != "1" {
+			key = "some-other-secret"
+		}
+		tok, err := jwt.NewWithClaims(jwt.SigningMethodHS256, claims).SignedString([]byte(key))
+		if err != nil {
+			return "badtoken"
+		}
+		req.Header.Set("Authorization", "Bearer "+tok)
+	}
+	served0, wrote0 := s.served, s.pw.calls
+	ping0 := statInt(s.stats, "ping_req")
+	w := httptest.NewRecorder()
+	s.h.ServeHTTP(w, req)
+	served := 0
+	if s.served > served0 || statInt(s.stats, "ping_req") > ping0 {
+		served = 1
+	}
+	wrote := 0
+	if s.pw.calls > wrote0 {
+		wrote = 1
+	}
+	return fmt.Sprintf("%d %d %d", w.Code, served, wrote)
+}
+
+// execCase runs the op lines of one case and returns them with observations.
+func execCase(ops []string) (out []string) {
+	fa := &fakeAuth{users: map[string]account{}, subs: map[string]account{}}
+	servers := map[bool]*server{}
+	users := map[string]auth.User{}
+	guard := func(line string, f func() string) {
+		defer func() {
+			if r := recover(); r != nil {
+				out = append(out, line+" => panic")
+			}
+		}()
+		obs := f()
+		if obs == "" {
+			out = append(out, line)
+		} else {
+			out = append(out, line+" => "+obs)
+		}
+	}
+	for _, raw := range ops {
+		line := raw
+		if i := strings.Index(line, " => "); i >= 0 {
+			line = line[:i]
+		}
+		t := strings.Fields(line)
+		if len(t) == 0 {
+			continue
+		}
+		switch {
+		case t[0] == "user" && len(t) == 5:
+			guard(line, func() string {
+				a := account{name: un(t[1]), pw: un(t[2]), admin: t[3] == "1", grants: parseGrants(t[4])}
+				fa.users[a.name] = a
+				users[a.name] = a.user()
+				return ""
+			})
+		case t[0] == "sub" && len(t) == 4:
+			guard(line, func() string {
+				fa.subs[un(t[1])] = account{name: "sub", admin: t[2] == "1", grants: parseGrants(t[3])}
+				return ""
+			})
+		case t[0] == "az" && len(t) == 3:
+			guard(line, func() string {
+				u := users[un(t[1])]
+				var b []byte
+				for _, p := range []auth.Privilege{1, 2, 4, 8, 16} {
+					b = append(b, decide(u, un(t[2]), p))
+				}
+				return string(b)
+			})
+		case t[0] == "azp" && len(t) == 4:
+			guard(line, func() string {
+				p, _ := strconv.ParseUint(t[3], 10, 32)
+				return string([]byte{decide(users[un(t[1])], un(t[2]), auth.Privilege(p))})
+			})
+		case t[0] == "clean" && len(t) == 2:
+			guard(line, func() string { return kit.Esc(path.Clean(un(t[1]))) })
+		case t[0] == "dir" && len(t) == 2:
+			guard(line, func() string { return kit.Esc(path.Dir(un(t[1]))) })
+		case t[0] == "api" && len(t) == 2:
+			guard(line, func() string { return kit.Esc(auth.APIResource(un(t[1]))) })
+		case t[0] == "dbres" && len(t) == 2:
+			guard(line, func() string { return kit.Esc(auth.DatabaseResource(un(t[1]))) })
+		case t[0] == "dbpair" && len(t) == 3:
+			guard(line, func() string {
+				return kit.Esc(auth.DatabaseResource(un(t[1]))) + " " + kit.Esc(auth.DatabaseResource(un(t[2])))
+			})
+		case t[0] == "http" && len(t) == 6:
+			guard(line, func() string {
+				ra := t[1] == "1"
+				s, ok := servers[ra]
+				if !ok {
+					s = newServer(ra, fa)
+					servers[ra] = s
+				}
+				return doHTTP(s, un(t[2]), un(t[3]), t[4], un(t[5]))
+			})
+		default:
+			out = append(out, line+" => badline")
+		}
+	}
+	return out
+}
+
+func emit(out *kit.Out, id string, lines []string) {
+	out.Line("case", id)
+	for _, l := range lines {
+		out.Line(l)
+	}
+	out.Line("end")
+}
+
+// Run: `vh-c20 -seed S -n N [-tier thorough]` generates; `vh-c20 -ops file` re-executes the cases of a file.
 func Run(args []string) int {
-	fmt.Fprintln(os.Stderr, "c20: harness not implemented yet")
-	return 3
+	f := kit.ParseFlags(args)
+	out := kit.NewOut()
+	defer out.Flush()
+	if f.Ops != "" {
+		lines, err := kit.ReadLines(f.Ops)
+		if err != nil {
+			fmt.Fprintln(os.Stderr, err)
+			return 2
+		}
+		var cur []string
+		id := ""
+		for _, l := range lines {
+			t := strings.Fields(l)
+			switch {
+			case len(t) == 2 && t[0] == "case":
+				id, cur = t[1], nil
+			case len(t) == 1 && t[0] == "end":
+				emit(out, id, execCase(cur))
+			default:
+				cur = append(cur, l)
+			}
+		}
+		return 0
+	}
+	generate(out, f)
+	return 0
 }
